@@ -164,14 +164,14 @@ theorem run_w2 (s : Sys) (ops : List Op) (hw : WInv s) (hr : RInv s) (h : W2 s) 
   | cons op ops ih => exact ih _ (step_winv s op hw) (step_rinv s op hw hr) (step_w2 s op hr h)
 
 theorem reachable_w2 (ops : List Op) : W2 (run {} ops) :=
-  run_w2 _ ops init_winv init_rinv ⟨by simp [owners], by simp, by simp⟩
+  run_w2 _ ops init_winv init_rinv ⟨by simp [ownerIds], by simp, by simp⟩
 
 /-- listeners ≤ pending callers, outstanding wake-ups ≤ listeners -/
 theorem listeners_le (ops : List Op) :
     (run {} ops).act.length + (run {} ops).pas.length ≤ (pendingPolled (run {} ops)).length := by
   obtain ⟨hw, hr, _⟩ := reachable_all ops
   have hc := reachable_w2 ops
-  have := nodup_subset_length (owners ((run {} ops).act ++ (run {} ops).pas))
+  have := nodup_subset_length (ownerIds ((run {} ops).act ++ (run {} ops).pas))
     ((pendingPolled (run {} ops)).map (·.id)) hc.nq (by
     intro g hg
     have hh : Ev.has ((run {} ops).act ++ (run {} ops).pas) g = true := by
@@ -192,7 +192,7 @@ theorem listeners_le (ops : List Op) :
     refine List.mem_map.mpr ⟨fu, ?_, hid⟩
     have hp := (hw.flags fu hfu).polledOf (by rw [hpc]; simp)
     simp [pendingPolled, hfu, hp, hpc])
-  simpa [owners] using this
+  simpa [ownerIds] using this
 
 theorem woken_le (ops : List Op) :
     (run {} ops).woken.length ≤ (pendingPolled (run {} ops)).length := by
